@@ -45,11 +45,13 @@ def snapshot(m):
     return m
 
 
-def formal_overflow(kind, pa, pb):
-    """does the term-by-term product create a squashed monomial of degree > 2?"""
+def formal_overflow(kind, pa, pb, raw_b=None):
+    """does the term-by-term product create a squashed monomial of degree > 2?  The library multiplies the STORED terms of
+    the model with the RAW keys of a dict operand (which may denote 0, e.g. {(1,): 2, (1, 1): -2}), so raw keys count."""
+    keys_b = [tuple(k) for k in raw_b] if raw_b is not None else [tuple(k) for k in pb.d]
     for k in pa.d:
-        for k2 in pb.d:
-            if len(pa.canon(tuple(k) + tuple(k2))) > 2:
+        for k2 in keys_b:
+            if len(pa.canon(tuple(k) + k2)) > 2:
                 return True
     return False
 
@@ -129,7 +131,7 @@ def case(ctx, rng, idx):
             exp = pb - pa
         elif op in ("mul", "rmul", "imul"):
             exp = pa * pb
-            may_overflow = deg2 and okind != "num" and formal_overflow(kind, pa, pb)
+            may_overflow = deg2 and okind != "num" and formal_overflow(kind, pa, pb, raw_b=b if okind == "dict" else None)
         elif op in ("pow", "ipow"):
             expo = rng.randint(1, 5)
             if len(pa.d) > 4 and expo > 3:
